@@ -252,6 +252,21 @@ def run():
                     cover_meta.append(rep)
     absorb(pairs, pool_map(pairs, P), 'pair')
     ck.sample({'pair': pairs[len(pairs) // 3]})
+    # the same pair rule one level down: two candidates inside a token that spans the text and parses its inside
+    tcfg = 'SpanTriples3.cfg' if quick else 'SpanTriples4.cfg'
+    if quick:
+        tres = [core.tlc('SpanResolve', tcfg, workers=1, env={'SHARD': '-'}, timeout=1800)]
+    else:
+        with ThreadPoolExecutor(max_workers=core.NCPU) as ex:
+            tres = list(ex.map(lambda sh: core.tlc('SpanResolve', tcfg, workers=1, env={'SHARD': sh}, timeout=3000, heap='4g'), shards))
+    triples = []
+    for r in tres:
+        ck.add_tlc(r)
+        triples.extend(r.printed_json())
+    if len(triples) < 20000:
+        raise core.MachineryError('SpanResolve.tla exported only %d enclosed triples' % len(triples))
+    absorb(triples, pool_map(triples, P), 'enclosed-pair')
+    ck.extra['enclosed_pairs'] = len(triples)
     # triples and quadruples
     n_multi = 6000 if quick else 150000
     sets = [random_cands(ck.rng, 8, 3 + (i % 2)) for i in range(n_multi)]
